@@ -15,11 +15,16 @@ PROP = "C13"
 RUN_MODULE = "Run.EngineRun"
 VERDICT_FN = "verdict_C13_any"
 CHUNK = 100
-render_source = eng.render_source
+def render_source(sc):
+    if sc.get("probe") == "copy_attach":
+        return f"# probe: a machine and its copy.{sc['first']}; a listener attached to the {sc['side']} only; events fired via {sc.get('via')}\n"
+    return eng.render_source(sc)
+
+
 DRIVER_ERR = eng.DRIVER_ERR
 K = dict(cbs=0.3, conv=0.15, sends=0.05, guards=0.3, multi_event=0.5, multi_cand=0.5, allow=0.4, unknown_ev=0.2,
          p_async=0.2, ops=(3, 14), rtc_false=0.15)
-STYLES = ["attr", "events", "allowed", "bound", "foreign"]
+STYLES = ["attr", "events", "allowed", "bound", "bound2", "foreign"]
 
 
 def attr_probe(sc):
@@ -91,6 +96,9 @@ def attr_probe(sc):
 
 
 def run_impl(sc):
+    if sc.get("probe") == "copy_attach":
+        from . import c12
+        return c12.copy_attach_probe(sc)
     if sc.get("probe"):
         return attr_probe(sc)
     return eng.run_impl(sc)
@@ -137,7 +145,11 @@ def generate(rng, tier):
         sc = enggen.gen_scenario(rng, dict(K, sends=0.0, p_async=0.1))
         sc["probe"] = True
         pr.append(sc)
+    for k in range(16):
+        pr.append({"probe": "copy_attach", "seed": rng.randrange(10 ** 6), "first": ["copy", "deepcopy"][k % 2],
+                   "side": ["copy", "original"][(k // 2) % 2], "via": ["send", "attr", "events", "allowed"][(k // 4) % 4]})
     scs += pr
+    parts.append(("every entry point of a shallow / deep copy drives the copy (a listener attached to one of the two only)", 16))
     parts.append(("attribute probe: for each generated machine, every name in dir(sm) that is not a declared event "
                   "(~150 names: methods, properties, dunders, state ids) plus odd strings is passed to send() on a "
                   "fresh instance", npr))
@@ -147,6 +159,8 @@ def generate(rng, tier):
 def nontrivial(sc, obs):
     """Non-trivial: the history uses >= 2 different calling styles, or it is an attribute probe that
     tried >= 100 names."""
+    if sc.get("probe") == "copy_attach":
+        return False
     if sc.get("probe"):
         return obs.get("names", 0) >= 100
     return len({op[1] for op in sc["ops"] if op[0] == "call"}) >= 2
@@ -158,7 +172,7 @@ def extra_coverage(scs, obs, verdicts):
 
 
 def d4(sc, v):
-    return bool(sc.get("probe"))
+    return sc.get("probe") is True
 
 
 CLASSIFIERS = {"C13.send_resolves_any_attribute": d4}
